@@ -127,7 +127,7 @@ func MarshalInputToOptions(input protoiface.MarshalInput) proto.MarshalOptions {
 func UnmarshalInputToOptions(input protoiface.UnmarshalInput) proto.UnmarshalOptions {
 	return proto.UnmarshalOptions{
 		NoUnkeyedLiterals: input.NoUnkeyedLiterals,
-		Merge:             false,
+		Merge:             true, // nested decodes merge into the existing sub-message, as the wire format requires for repeated occurrences
 		AllowPartial:      true, // defaults to true as the required fields check is done after the unmarshalling
 		DiscardUnknown:    input.Flags&protoiface.UnmarshalDiscardUnknown != 0,
 		Resolver:          input.Resolver,
